@@ -48,6 +48,7 @@ RULE = (
     '40 x rows for the uniform choice of posterior draws / prior table rows. Non-trivial: n_samples >= 2 and '
     '(>= 2 outputs or >= 2 times), and for population models a special / non-centred / covariate dimension. '
     'Distinct = structural projection (mode, model structure, flags, dataset shape, history).')
+RULE += (' ' + "Added sub-domains: heterogeneous parts over mechanistic dimensions with 2-4 individuals and 1000 patients (the row each patient received is decoded exactly; uniform and serially independent); param_map cycles in which dataset variables carry the model's names of other parameters.")
 ASSUMPTIONS = [
     'reference outputs: vf.analytic_model.ref_outputs; closed-form one-compartment solution for the dosed sub-domain '
     '(reference integrator vf/simshim.py, relative tolerance 1e-6)',
